@@ -132,7 +132,7 @@ def run(pid, cfg, tier, rdir):
             return None
         hit = {}
         for bl in blocks:
-            if not bl.startswith("error") or "originates in the macro" not in bl:
+            if not bl.startswith("error") or bl.startswith("error: could not compile") or bl.startswith("error: Failed to execute") or bl.startswith("error: aborting"):
                 continue
             m = re.search(r"--> src/lib\.rs:(\d+):", bl)
             if not m:
@@ -141,7 +141,7 @@ def run(pid, cfg, tier, rdir):
             if hn:
                 hit.setdefault(hn, []).append(bl.strip()[:1500])
         by = {h.name: h for h in hs}
-        if cfg.get("compile_clause") and hit:
+        if cfg.get("compile_clause", True) and hit:
             # the programs are well-typed by construction (their plain-Rust reference compiles in the same crate and the
             # crate builds on the unchanged tree): an error originating in the macro violates "expands to code that compiles"
             for hn, bls in list(hit.items())[:12]:
